@@ -6,6 +6,8 @@
   says now); specification: GeoModel/RelateSpec.lean.
 -/
 import GeoProofs.Lemmas.GenKernel
+import GeoProofs.Lemmas.TRANCoordPos
+import GeoProofs.Lemmas.TRANArea
 import GeoModel.Contains
 import GeoModel.Gen.Masks
 import GeoModel.Gen.Enums
@@ -725,5 +727,57 @@ example : coordPos (.multiPolygon [⟨[⟨0, 0⟩, ⟨4, 0⟩, ⟨4, 4⟩, ⟨0,
     locate (.multiPolygon [⟨[⟨0, 0⟩, ⟨4, 0⟩, ⟨4, 4⟩, ⟨0, 4⟩, ⟨0, 0⟩], []⟩,
       ⟨[⟨4, 4⟩, ⟨8, 4⟩, ⟨8, 8⟩, ⟨4, 8⟩, ⟨4, 4⟩], []⟩]) ⟨4, 4⟩ :=
   coordPos_multiPolygon_eq_locate_valid_partial _ _ (by decide +kernel) (by decide +kernel)
+
+/-! ### TRAN: the `CoordinatePosition` accumulator, clause by clause, is the term read off the Rust bodies -/
+
+/-- [T] (translator tie) `coord_pos_relative_to_ring` as a whole — the empty / one-coordinate prologue, the winding loop
+over `lines()` with its early `return CoordPos::OnBoundary`, and the final `winding_number == 0` test — regenerated from
+the Rust body on this run, equals `ringPos`. -/
+theorem ringPos_eq_source (p : Pt) (ring : List Pt) : ringPos p ring = Gen.coordPosRelativeToRing p ring :=
+  Geo.Proofs.TRANCoordPos.ringPos_eq p ring
+
+/-- [T] (translator tie) every `calculate_coordinate_position` body of coordinate_position.rs (Coord, Point, Line,
+LineString, Triangle, Rect, MultiPoint, Polygon with its loop over the interiors, MultiLineString, MultiPolygon,
+GeometryCollection — the recursive call through the `Geometry` enum being `calcPos` itself),
+regenerated on this run as a state transformer `PosAcc → PosAcc` (`*is_inside = true`, `*boundary_count += 1`, `return;`,
+nested calls on the same accumulator), equals the clause of the hand-written model `calcPos`. -/
+theorem calculateCoordinatePosition_eq_source :
+    (∀ q p acc, calcPoint q p acc = Gen.coordCalc q p acc) ∧
+    (∀ q p acc, calcPoint q p acc = Gen.pointCalc q p acc) ∧
+    (∀ a b p acc, calcLine a b p acc = Gen.lineCalc a b p acc) ∧
+    (∀ cs p acc, calcLineString cs p acc = Gen.lineStringCalc cs p acc) ∧
+    (∀ a b c p acc, calcTriangle a b c p acc = Gen.triangleCalc a b c p acc) ∧
+    (∀ mn mx p acc, calcRect mn mx p acc = Gen.rectCalc mn mx p acc) ∧
+    (∀ qs p acc, calcPos (.multiPoint qs) p acc = Gen.multiPointCalc qs p acc) ∧
+    (∀ poly p acc, calcPolygon poly p acc = Gen.polygonCalc poly p acc) ∧
+    (∀ ls p acc, calcPos (.multiLineString ls) p acc = Gen.multiLineStringCalc ls p acc) ∧
+    (∀ ps p acc, calcMultiPolygon ps p acc = Gen.multiPolygonCalc ps p acc) ∧
+    (∀ gs p acc, calcPos (.collection gs) p acc = Gen.geometryCollectionCalc calcPos gs p acc) :=
+  ⟨Geo.Proofs.TRANCoordPos.calcPoint_eq, Geo.Proofs.TRANCoordPos.calcPoint_eq_point,
+   Geo.Proofs.TRANCoordPos.calcLine_eq, Geo.Proofs.TRANCoordPos.calcLineString_eq,
+   Geo.Proofs.TRANCoordPos.calcTriangle_eq, Geo.Proofs.TRANCoordPos.calcRect_eq,
+   fun qs p acc => by simp only [calcPos]; exact Geo.Proofs.TRANCoordPos.calcMultiPoint_eq qs p acc,
+   Geo.Proofs.TRANCoordPos.calcPolygon_eq,
+   fun ls p acc => by simp only [calcPos]; exact Geo.Proofs.TRANCoordPos.calcMultiLineString_eq ls p acc,
+   Geo.Proofs.TRANCoordPos.calcMultiPolygon_eq,
+   fun gs p acc => by simp only [calcPos]; exact Geo.Proofs.TRANCoordPos.calcPosList_eq gs p acc⟩
+
+/-- [T] (translator tie) the provided trait method `coordinate_position` (fresh accumulator, mod-2 rule on the
+boundary count, then `is_inside`) regenerated from its Rust body, applied to the model's accumulator pass. -/
+theorem coordinatePosition_eq_source (g : Geom) (p : Pt) :
+    coordPos g p = Gen.coordinatePosition (calcPos g) p :=
+  Geo.Proofs.TRANCoordPos.coordPos_eq g p
+
+/-- [T] (translator tie) the hand-written `contains` bodies `Line: Contains<Coord>`, `Line: Contains<Line>`,
+`Rect: Contains<Polygon>` (loop over the exterior coordinates with early `return false` and the `points_inside` counter)
+and `Triangle: Intersects<Coord>` (orientations of `to_lines()`, `sort()`, the `windows(2).any(..)` test), regenerated
+from the Rust bodies on this run, equal the model functions. -/
+theorem contains_kernels_eq_source :
+    (∀ a b c, lineContainsCoord a b c = Gen.lineContainsCoord a b c) ∧
+    (∀ a b c d, lineContainsLine a b c d = Gen.lineContainsLine a b c d) ∧
+    (∀ mn mx q, rectContainsPolygon mn mx q = Gen.rectContainsPolygon mn mx q) ∧
+    (∀ a b c p, triCoord a b c p = Gen.triangleCoord a b c p) :=
+  ⟨Geo.Proofs.TRANArea.lineContainsCoord_eq, Geo.Proofs.TRANArea.lineContainsLine_eq,
+   Geo.Proofs.TRANArea.rectContainsPolygon_eq, Geo.Proofs.TRANArea.triCoord_eq⟩
 
 end Geo.Proofs.C02
